@@ -1118,7 +1118,76 @@ func (lw *lowerer) stmt(st ast.Stmt) (string, bool) {
 		b.WriteString("if " + r + " " + string(lw.src[lw.off(x.Body.Pos()):lw.off(x.End())]) + "\n}")
 		return b.String(), true
 	case *ast.ForStmt:
-		if x.Cond == nil || !containsHelper(lw, x.Cond) || (x.Init != nil && containsHelper(lw, x.Init)) || (x.Post != nil && containsHelper(lw, x.Post)) {
+		if (x.Init != nil && containsHelper(lw, x.Init)) || (x.Post != nil && containsHelper(lw, x.Post)) {
+			// `for v := h(); cond; v = h() { body }`: init in front, the post statement at the top of every iteration but the
+			// first (so that `continue` still runs it), the condition as a leading `if !cond { break }`. The helper calls are
+			// then ordinary statements for the next round. Not done when a literal in the loop captures an init variable.
+			captured := false
+			if as, isAs := x.Init.(*ast.AssignStmt); isAs && as.Tok == token.DEFINE {
+				for _, l := range as.Lhs {
+					id, isId := l.(*ast.Ident)
+					if !isId {
+						continue
+					}
+					obj := lw.p.TypesInfo.Defs[id]
+					ast.Inspect(x, func(n ast.Node) bool {
+						switch y := n.(type) {
+						case *ast.FuncLit:
+							ast.Inspect(y, func(z ast.Node) bool {
+								if zi, ok := z.(*ast.Ident); ok && obj != nil && lw.p.TypesInfo.Uses[zi] == obj {
+									captured = true
+								}
+								return true
+							})
+						case *ast.UnaryExpr:
+							if zi, ok := y.X.(*ast.Ident); ok && y.Op == token.AND && obj != nil && lw.p.TypesInfo.Uses[zi] == obj {
+								captured = true
+							}
+						}
+						return true
+					})
+				}
+			}
+			if captured {
+				return "", false
+			}
+			// `for v := E; cond; v = E { body }` with the same E on both sides evaluates E afresh before every test: a plain
+			// `for { v := E; if !cond { break }; body }` (a `continue` re-evaluates E either way)
+			if ias, ok1 := x.Init.(*ast.AssignStmt); ok1 && ias.Tok == token.DEFINE && len(ias.Lhs) == 1 && len(ias.Rhs) == 1 {
+				if pas, ok2 := x.Post.(*ast.AssignStmt); ok2 && pas.Tok == token.ASSIGN && len(pas.Lhs) == 1 && len(pas.Rhs) == 1 && x.Cond != nil {
+					li, isI1 := ias.Lhs[0].(*ast.Ident)
+					lp, isI2 := pas.Lhs[0].(*ast.Ident)
+					if isI1 && isI2 && lw.p.TypesInfo.Uses[lp] == lw.p.TypesInfo.Defs[li] && lw.text(ias.Rhs[0]) == lw.text(pas.Rhs[0]) {
+						var b strings.Builder
+						b.WriteString("for {\n" + lw.text(x.Init) + "\n")
+						b.WriteString("if !(" + lw.text(x.Cond) + ") {\nbreak\n}\n")
+						b.WriteString(string(lw.src[lw.off(x.Body.Lbrace)+1 : lw.off(x.Body.Rbrace)]))
+						b.WriteString("\n}")
+						lw.n++
+						return b.String(), true
+					}
+				}
+			}
+			*lw.uniq++
+			first := fmt.Sprintf("first__inl%d", *lw.uniq)
+			var b strings.Builder
+			b.WriteString("{\n")
+			if x.Init != nil {
+				b.WriteString(lw.text(x.Init) + "\n")
+			}
+			fmt.Fprintf(&b, "for %s := true; ; %s = false {\n", first, first)
+			if x.Post != nil {
+				fmt.Fprintf(&b, "if !%s {\n%s\n}\n", first, lw.text(x.Post))
+			}
+			if x.Cond != nil {
+				b.WriteString("if !(" + lw.text(x.Cond) + ") {\nbreak\n}\n")
+			}
+			b.WriteString(string(lw.src[lw.off(x.Body.Lbrace)+1 : lw.off(x.Body.Rbrace)]))
+			b.WriteString("\n}\n}")
+			lw.n++
+			return b.String(), true
+		}
+		if x.Cond == nil || !containsHelper(lw, x.Cond) {
 			return "", false
 		}
 		pre, r, ok := lw.expr(x.Cond)
